@@ -632,6 +632,66 @@ def tryPreemptionNoPlugin (w : World) (nodesTried : Bool) : Option TryResult :=
   | none => none
   | some (c, nv) => commitAfterPick w ss c nv
 
+/-! ### TryPreemption, the marking of the final victims (a victim may have been released in the meantime) -/
+
+/-- Allocation.SetReleased(true) on the allocations named by `late`, between the victim collection
+    (initQueueSnapshots) and the marking loop; refused for an allocation that is marked preempted -/
+def releaseLate (late : List String) (allocs : List PAlloc) : List PAlloc :=
+  allocs.map (fun a => if late.contains a.key && !a.preempted then { a with released := true } else a)
+
+/-- the allocation with its preempted flag set to `b` -/
+def PAlloc.mark (a : PAlloc) (b : Bool) : PAlloc := { a with preempted := b }
+
+/-- MarkPreempted (`b = true`; the caller looked at `released`) / MarkUnPreempted (`b = false`) on allocation `k` -/
+def setPreempted (k : String) (b : Bool) (allocs : List PAlloc) : List PAlloc :=
+  allocs.map (fun a => if a.key == k then a.mark b else a)
+
+def isReleased (allocs : List PAlloc) (k : String) : Bool :=
+  match allocs.find? (fun a => a.key == k) with | some a => a.released | none => false
+
+/-- MarkUnPreempted on every victim marked so far -/
+def unmarkAll (done : List String) (allocs : List PAlloc) : List PAlloc :=
+  done.foldl (fun al d => setPreempted d false al) allocs
+
+/-- the marking loop of TryPreemption as written: MarkPreempted on the final victims in order; `done` are the
+    victims marked so far (`preemptedVictims`). The first victim that turns out to be released un-marks all of `done`
+    and abandons the attempt. Result: the allocations, and whether every victim was marked. -/
+def markLoop (allocs : List PAlloc) (done : List String) : List String → List PAlloc × Bool
+  | [] => (allocs, true)
+  | k :: t =>
+    if isReleased allocs k then (unmarkAll done allocs, false)
+    else markLoop (setPreempted k true allocs) (done ++ [k]) t
+
+/-- what one TryPreemption leaves behind -/
+structure TryLate where
+  allocs : List PAlloc          -- every bound allocation with its flags after the attempt
+  result : Option TryResult     -- `some` = committed (victims booked as preempting and announced, node reserved)
+  released : Bool               -- abandoned because a final victim was released: "victims released" is logged on the ask
+  triggered : Bool              -- the ask's preemptionTriggered flag
+  deriving Repr
+
+/-- the end of TryPreemption: `r` is the outcome up to the shortfall test (`none` = abandoned before),
+    `late` the allocations released since the victims were collected -/
+def finishTry (w : World) (late : List String) (r : Option TryResult) : TryLate :=
+  let allocs0 := releaseLate late w.allocs
+  match r with
+  | none => { allocs := allocs0, result := none, released := false, triggered := w.ask.triggered }
+  | some r =>
+    let m := markLoop allocs0 [] (r.victims.map (·.key))
+    if m.2 then { allocs := m.1, result := some r, released := false, triggered := true }
+    else { allocs := m.1, result := none, released := true, triggered := w.ask.triggered }
+
+/-- TryPreemption without a plugin with `late` released between victim collection and marking -/
+def tryPreemptionLate (w : World) (nodesTried : Bool) (late : List String) : TryLate :=
+  finishTry w late (tryPreemptionNoPlugin w nodesTried)
+
+/-- specification side: the allocations with the preempted flag of every allocation whose key is in `ks` set to `b` -/
+def markMap (ks : List String) (b : Bool) (allocs : List PAlloc) : List PAlloc :=
+  allocs.map (fun a => if ks.contains a.key then a.mark b else a)
+
+/-- keys of the allocations marked preempted -/
+def markedKeys (allocs : List PAlloc) : List String := (allocs.filter (·.preempted)).map (·.key)
+
 /-- the ask fits `free` on every type of the ask (missing type = 0) -/
 def coversAsk (free ask : Res) : Bool := ask.all (fun p => decide (p.2 ≤ free.getD p.1))
 
